@@ -597,4 +597,24 @@ def atMostK (dsl : Dsl) (request : Ty) (name : String) (k : Nat) (nGram : Int) (
     | .fuel => .fuel
     | .keyError => .keyError
 
+/-! ## `TTCFG.programs` with the proposed repair C13-F5 (count): a missing non-terminal is the end
+     of a derivation only when it carries the end-marker type `UnknownType` of `derive`; any other
+     non-terminal without rules (removed by `clean()`) derives nothing -/
+section ProgramsR
+variable {S T : Type} [DecidableEq S] [DecidableEq T]
+
+/-- `__compute__` with `return {state[1][1]: 1} if isinstance(state[0], UnknownType) else {}` -/
+def computeR (G : TT S T) : Nat → NT S T → Option (AList T Nat)
+  | 0, _ => none
+  | fuel + 1, state =>
+    match AList.lookup state G.rules with
+    | none => if state.1 = Ty.unknown then some [(state.2.2, 1)] else some []
+    | some row => rowCounts (computeR G fuel) state row []
+
+/-- `programs()` with both repairs (C13-F6: no start symbol = 0 programs; C13-F5) -/
+def programsR (G : TT S T) (fuel : Nat) : Option Nat :=
+  if AList.contains G.start G.rules then (computeR G fuel G.start).map (fun d => (d.map (·.2)).sum) else some 0
+
+end ProgramsR
+
 end PS.T
